@@ -1,7 +1,37 @@
-"""per-property registry: claimed level, explanation and assumptions that go into the evidence"""
-COMMON_B = ["bounded part: real functions of VERIF_REPO executed under /venv/bin/python 3.12; the oracle is an executable transcription of the property text and never calls the code under test to compute expectations"]
+"""per-property registry: claimed level, explanation and assumptions that go into the evidence and MANIFEST"""
+COMMON_B = ("bounded part: real functions of VERIF_REPO executed under /venv/bin/python 3.12; the oracle is an "
+            "executable transcription of the property text and never calls the code under test to compute "
+            "expectations; bounds are in coverage.bounds")
+COMMON_P = ("deductive part: pyvc (our own VC generator over the real ast of VERIF_REPO, re-read on every run) + "
+            "z3 5.1 API / z3-new CLI / cvc5 CLI; assumed semantics in DESIGN.md 3.3; soundness of pyvc and the "
+            "solvers is trusted (mitigated by selftest/ mutants and the vacuity guards)")
+
 PROPS = {
+ "C15": {"level": "exploration",
+         "technique": "bounded stand-in: executable contract on get_headpos_by_rule / negra_mark_heads / mark_heads_by_rules, exhaustive small scope",
+         "explanation": "Head marking: no function of this property is under a discharged deductive contract yet; "
+                        "the executable contract is evaluated on the real functions.",
+         "level_text": "bounded exploration only (labelled bounded, nothing proved): all tree shapes n<=4 x all HD/NK/-- "
+                       "edge assignments, every parent category of both presets x child sequences with exactly one listed child",
+         "assumptions": [COMMON_B], "design_ref": "5 C15"},
  "C16": {"level": "other",
-         "explanation": "Gap-degree kernel under contract (pyvc) plus bounded agreement checks.",
-         "assumptions": COMMON_B},
+         "technique": "contract-based deductive verification (pyvc VCs from the real AST, z3) of gap_degree_node, has_gaps, gap_type, terminal_blocks + bounded stand-in for gap_degree, tasks, three-way agreement, disco_order",
+         "explanation": "Kernel proved for all inputs: gap_degree_node == set-based gap degree, has_gaps, gap_type "
+                        "classification, terminal_blocks partitions T(node) into its maximal runs in order with "
+                        "|blocks| = gap degree + 1 (loop invariants, no bound). The contracts of trees.terminals / "
+                        "trees.children are assumed at call sites (listed in trusted_base). gap_degree over preorder, the "
+                        "analysis tasks, the three-way agreement and disco_order are bounded only.",
+         "level_text": "proof for the kernel functions (all obligations discharged, unbounded), bounded stand-in for the rest; "
+                       "therefore 'other', not 'proof'",
+         "assumptions": [COMMON_P, COMMON_B], "design_ref": "5 C16"},
+ "C19": {"level": "exploration",
+         "technique": "bounded stand-in: navigation API against a set-based model on all shapes n<=5 with permuted child lists",
+         "explanation": "Navigation API against a set-based reference model.",
+         "level_text": "bounded exploration (deductive contracts for siblings/lca are being added)",
+         "assumptions": [COMMON_B], "design_ref": "5 C19"},
+ "C20": {"level": "exploration",
+         "technique": "bounded stand-in: exhaustive strings up to length 5 over the property's alphabet",
+         "explanation": "Label parsing/formatting round trip.",
+         "level_text": "bounded exploration, exhaustive up to the stated length",
+         "assumptions": [COMMON_B], "design_ref": "5 C20"},
 }
